@@ -1,4 +1,5 @@
 import CG.Proofs.PeerConc
+import CG.Proofs.PeerRefine
 /-!
 # C12, concurrent part — the receive thread against local `send` / `disconnect` calls
 
@@ -131,6 +132,26 @@ theorem C12_conc_local_calls_never_block (remote : List RemoteEv) (progs : List 
     by_cases hx : x = i + 1
     · left; subst hx; exact holder_can_step s hok _ hw
     · right; exact ⟨x, rfl, hx, holder_can_step s hok x hw⟩
+
+/-- **The sequential model of `CG.Props.C12` is this model under atomic schedules.**  For every list of
+    sequential events of the connected phase (remote frames, garbage, close; local sends and disconnects),
+    the interleaving model — started after the handshake with the remote events in its queue and the local
+    calls as the program of one local thread — run under the schedule in which every event's steps are
+    contiguous (`atomicSched`) logs exactly the outputs of the sequential model: every theorem of
+    `CG.Props.C12` about the connected phase is a statement about these schedules, and the theorems above
+    say what the other schedules add. -/
+theorem C12_conc_refines_sequential_model (filter : CG.Model.Peer.VersionInfo → Bool)
+    (es : List CG.Model.Peer.Event) :
+    (run (init (CG.Proofs.PeerRefine.remotes es) [CG.Proofs.PeerRefine.locals es])
+        (CG.Proofs.PeerRefine.atomicSched filter CG.Proofs.PeerRefine.seqInit es)).out =
+      (CG.Model.Peer.runFrom filter CG.Proofs.PeerRefine.seqInit es).2 := by
+  obtain ⟨rem', h⟩ := CG.Proofs.PeerRefine.refines filter es _ CG.Proofs.PeerRefine.seqOk_init
+    (CG.Proofs.PeerRefine.remotes es) [] (fun _ => rfl)
+  have e0 : init (CG.Proofs.PeerRefine.remotes es) [CG.Proofs.PeerRefine.locals es] =
+      CG.Proofs.PeerRefine.shape CG.Proofs.PeerRefine.seqInit (CG.Proofs.PeerRefine.remotes es) es [] := by
+    simp [init, CG.Proofs.PeerRefine.shape, CG.Proofs.PeerRefine.seqInit]
+  rw [e0, h]
+  simp [CG.Proofs.PeerRefine.shape]
 
 /-! Non-vacuity: the hypotheses of the quiet theorem are satisfiable and its conclusion is not
 trivial (a remote close with a concurrent local send: the event is published, nothing follows). -/
